@@ -11,6 +11,16 @@ CLAIMED = {
          "tlsx is mirrored, not verified; MD5 is a parameter; crypto/tls acceptance assumed to imply well-formedness"),
    technique="Lean 4 theorem over regenerated table + model/implementation differential with spec oracle",
    design='7/C01'),
+ 'C04': dict(
+   text=("Proof (Lean 4): for every segmentation of every byte stream, the state of the capture wrapper is a function of the "
+         "bytes delivered only, and GetClientHello reports exactly the first TLS record or nothing (capture_exact, "
+         "segmentation_independent, capture_stable, capture_none_*); constants regenerated from the source; model tied to the "
+         "real HijackClientHelloConn by an exact differential including all segmentations of short streams"),
+   note=("Trusted: Lean kernel + standard axioms; translator; harness. Assumes reads never return data together with an error, "
+         "bytes.Buffer semantics, declared length <= 65530 (wrap beyond is documented, outside the quantifier). "
+         "Transparency is structural in the model (Read returns the chunk untouched) and validated by the differential"),
+   technique="Lean 4 invariant proof (state = canonical function of delivered bytes) + exhaustive/random differential",
+   design='7/C04'),
 }
 ALL = [f'C{i:02d}' for i in range(1, 21)]
 
